@@ -436,7 +436,129 @@ func c13Walks(s *core.Sub, pl *c13Pool, m *c13Model, path []c13Op, maxDev int) i
 
 // ---- BFS
 
+// runC13Wide: one parent with EVERY number of children 0..M, grown by each insertion call and shrunk again by each removal
+// call: the list-of-children model is a counter here. ChildCount and HasChildren are compared after every call; at every
+// power of two (±1) the whole child list is walked in both directions and every Parent link checked. Anything that
+// stores the count in a narrower type, or batches the children, crosses its threshold at some n.
+func runC13Wide(r *core.Run) {
+	m := core.Pick(r, 300000, 4300000)
+	s := r.Sub("wide-parent", fmt.Sprintf("one parent with every child count 0..%d, grown by AppendChild / InsertBefore(first) / InsertAfter(last) / InsertBefore(nil) / alternating ends and shrunk by RemoveChild(first) / RemoveChild(last) / ReplaceChild + RemoveChild, finally RemoveChildren: ChildCount and HasChildren after every call; at every power of two ±1 the sibling chain in both directions, Parent links and Walk's visit count", m))
+	threshold := func(i int) bool {
+		for k := 1; k <= 30; k++ {
+			p := 1 << k
+			if i == p-1 || i == p || i == p+1 {
+				return true
+			}
+		}
+		return i == m
+	}
+	growers := []string{"AppendChild", "InsertBefore(first)", "InsertAfter(last)", "InsertBefore(nil)", "alternating ends"}
+	shrinkers := []string{"RemoveChild(first)", "RemoveChild(last)", "ReplaceChild(last)+RemoveChild(first)"}
+	type job struct{ g, sh int }
+	var jobs []job
+	for g := range growers {
+		jobs = append(jobs, job{g, g % len(shrinkers)})
+	}
+	core.ForEachIndex(len(jobs), core.Workers(), func(w int) func(int) {
+		return func(ji int) {
+			j := jobs[ji]
+			hist := []string{"p := ast.NewParagraph()", "grow by " + growers[j.g], "shrink by " + shrinkers[j.sh]}
+			p := ast.NewParagraph()
+			bad := func(sig string, i int, detail string) {
+				s.Violate("tree-differs-from-model:wide:"+sig, "", nil, append(append([]string{}, hist...), fmt.Sprintf("at %d children", i)), detail, "", "")
+			}
+			full := func(i int) bool {
+				n := 0
+				var prev ast.Node
+				for c := p.FirstChild(); c != nil; c = c.NextSibling() {
+					if c.Parent() != ast.Node(p) || c.PreviousSibling() != prev {
+						bad("links", i, "a child's Parent or PreviousSibling link is wrong")
+						return false
+					}
+					prev = c
+					n++
+					if n > i+2 {
+						break
+					}
+				}
+				if n != i || p.LastChild() != prev {
+					bad("forward-chain", i, fmt.Sprintf("FirstChild/NextSibling chain has %d nodes, LastChild consistent=%v", n, p.LastChild() == prev))
+					return false
+				}
+				visits := 0
+				_ = ast.Walk(p, func(n ast.Node, entering bool) (ast.WalkStatus, error) {
+					if entering {
+						visits++
+					}
+					return ast.WalkContinue, nil
+				})
+				if visits != i+1 {
+					bad("walk", i, fmt.Sprintf("Walk entered %d nodes, expected %d", visits, i+1))
+					return false
+				}
+				return true
+			}
+			check := func(i int) bool {
+				s.Evals.Add(1)
+				if p.ChildCount() != i || p.HasChildren() != (i > 0) {
+					bad("count", i, fmt.Sprintf("ChildCount()=%d HasChildren()=%v with %d children", p.ChildCount(), p.HasChildren(), i))
+					return false
+				}
+				if threshold(i) {
+					s.States.Add(1)
+					return full(i)
+				}
+				return true
+			}
+			ok := check(0)
+			for i := 1; i <= m && ok; i++ {
+				c := ast.NewText()
+				switch j.g {
+				case 0:
+					p.AppendChild(p, c)
+				case 1:
+					p.InsertBefore(p, p.FirstChild(), c)
+				case 2:
+					p.InsertAfter(p, p.LastChild(), c)
+				case 3:
+					p.InsertBefore(p, nil, c)
+				case 4:
+					if i%2 == 0 {
+						p.InsertBefore(p, p.FirstChild(), c)
+					} else {
+						p.AppendChild(p, c)
+					}
+				}
+				ok = check(i)
+			}
+			for i := m - 1; i >= 0 && ok; i-- {
+				switch j.sh {
+				case 0:
+					p.RemoveChild(p, p.FirstChild())
+				case 1:
+					p.RemoveChild(p, p.LastChild())
+				case 2:
+					p.ReplaceChild(p, p.LastChild(), ast.NewText())
+					p.RemoveChild(p, p.FirstChild())
+				}
+				ok = check(i)
+				if i == m/2 && ok {
+					p.RemoveChildren(p)
+					ok = check(0)
+					break
+				}
+			}
+			s.Distinct(core.Hash([]byte(growers[j.g])))
+		}
+	}, r.Expired)
+	s.AddSample([]string{"p := ast.NewParagraph()", "p.AppendChild(p, ast.NewText()) × n, n = 1.." + fmt.Sprint(m), "p.RemoveChild(p, p.FirstChild()) × n/2", "p.RemoveChildren(p)"})
+	s.Bound = fmt.Sprintf("child counts 0..%d × %d growth orders", m, len(jobs))
+	s.Transitions.Store(s.Evals.Load())
+	s.Done()
+}
+
 func runC13(r *core.Run) {
+	runC13Wide(r)
 	npool := core.Pick(r, 6, 7)
 	c13Parents = core.Pick(r, 3, 4)
 	if npool == 6 {
